@@ -1,6 +1,9 @@
 use super::super::trace::TraceInfo;
 use super::super::{HostMatcher, Route, RouterConfig, Trace};
 use crate::http::Request;
+#[cfg(kani)]
+use crate::verif_shim::map::{HashMap, HashSet};
+#[cfg(not(kani))]
 use std::collections::{HashMap, HashSet};
 use std::sync::Arc;
 
